@@ -336,6 +336,36 @@ def h_files( ctx ):
         res.ok( src, fin[0], 'every deferred file is closed when the generator finishes or fails' )
     else:
         res.bad( src, op, 'finally', 'deferred files must be closed on every exit of the generator' )
+    # ---- the time the search starts from, decided by value: the statements ahead of the file loop are run with the historical clock at
+    #      1000.0 and a look-ahead of 30 - no target given: the clock itself ( the look-ahead bounds what is YIELDED, H-PACE; a search
+    #      target moved ahead by it skips the file whose first record lies inside the window: its records are never delivered ); a target
+    #      given: that time, converted by timestamp()
+    params = [ a.arg for a in op.args.args ]
+    if len( params ) < 4 or len( op.args.defaults ) != len( params ) - 1:
+        raise AnalysisError( 'reader.open: parameters ( self, target, after, lookahead, ... ) not recognised: %s' % params )
+    first_loop = min(( s_.lineno for s_ in ast.walk( op ) if isinstance( s_, ( ast.For, ast.Try, ast.While ))), default=None )
+    head = [ s_ for s_ in op.body if s_.lineno < first_loop and not ( isinstance( s_, ast.Expr ) and isinstance( s_.value, ast.Constant )) ]
+    sets = [ s_ for h_ in head for s_ in ast.walk( h_ ) if isinstance( s_, ast.Assign ) and dotted( s_.targets[0] ) == params[1] ]
+    if not sets:
+        raise AnalysisError( 'reader.open: the assignment of the search target ( %s ) ahead of the file loop not found' % params[1] )
+    from .fold import run_block, NoFold, Raises
+    got = []
+    for given in ( None, 'T' ):
+        env = dict(( p_, try_fold( d_ )) for p_, d_ in zip( params[1:], op.args.defaults ))
+        env.update({ params[1]: given, params[3]: 30.0, 'self.advance': lambda: 1000.0, 'timestamp': lambda x: ( 'timestamp', x ), 'self.lookahead': 30.0,
+                     'misc.timestamp': lambda x: ( 'timestamp', x ) })
+        try:
+            out = run_block( head, env, ignore_calls=( 'log', ))
+        except Raises as exc:
+            got.append( 'raises %s' % exc ); continue
+        except NoFold as exc:
+            raise AnalysisError( 'reader.open: the statements ahead of the file loop are outside the modelled subset: %s' % str( exc )[:80] )
+        got.append( env.get( params[1] ) if out.kind == 'fall' else out.kind )
+    if got == [ 1000.0, ( 'timestamp', 'T' ) ]:
+        res.ok( src, sets[0], 'the search for the file to replay starts from the historical clock itself ( no target given ) or from the given time' )
+    else:
+        res.bad( src, sets[0], 'reader.open searches from %s ( clock 1000.0, look-ahead 30, no target given ) and %s ( target T given )' % ( got[0], got[1] ),
+                 'the file whose first record lies between the clock and the time searched from is passed over: the records logged there are never replayed' )
     return res
 
 
